@@ -87,12 +87,22 @@ func hasRequestBody(r *http.Request) bool {
 // validateNames makes sure the paths received from a client stay inside the
 // directories they will be joined to (no absolute paths, no parent-directory
 // escapes).  Empty optional names are fine.
+// isLocalName tells whether a name stays below the directory it is joined to
+func isLocalName(name string) bool {
+	if !filepath.IsLocal(name) {
+		return false
+	}
+	// "." and everything that cleans to it ("./", "a/..") is local but names
+	// the directory itself, not a file in it
+	return filepath.Clean(name) != "."
+}
+
 func validateNames(required string, optional ...string) error {
-	if !filepath.IsLocal(required) {
+	if !isLocalName(required) {
 		return fmt.Errorf("invalid file name: %q", required)
 	}
 	for _, name := range optional {
-		if name != "" && !filepath.IsLocal(name) {
+		if name != "" && !isLocalName(name) {
 			return fmt.Errorf("invalid file name: %q", name)
 		}
 	}
